@@ -41,3 +41,27 @@ theorem rnStep_exact (k d : Nat) (hd : 0 < d) : rnStep (k * d) d = k := by
   unfold rnStep
   simp [Nat.mul_div_cancel _ hd, Nat.mul_mod_left]
   omega
+
+-- the rounding step depends only on the ratio n/d
+theorem rnStep_scale (c n d : Nat) (hc : 0 < c) : rnStep (c * n) (c * d) = rnStep n d := by
+  unfold rnStep
+  simp only [Nat.mul_div_mul_left _ _ hc, Nat.mul_mod_mul_left]
+  have h1 : (2 * (c * (n % d)) > c * d) ↔ (2 * (n % d) > d) := by
+    rw [Nat.mul_left_comm]; exact Nat.mul_lt_mul_left hc
+  have h2 : (2 * (c * (n % d)) == c * d) = (2 * (n % d) == d) := by
+    rw [Nat.mul_left_comm, Bool.eq_iff_iff]
+    simp only [beq_iff_eq]
+    exact ⟨fun h => Nat.eq_of_mul_eq_mul_left hc h, fun h => by rw [h]⟩
+  simp only [h1, h2]
+
+theorem rnStep_one (n : Nat) : rnStep n 1 = n := by
+  have := rnStep_exact n 1 (by decide)
+  simpa using this
+
+theorem rnStep_ge (n d L : Nat) (hd : 0 < d) (h : L * d ≤ n) : L ≤ rnStep n d := by
+  have := rnStep_mono (L * d) n d hd h
+  rwa [rnStep_exact L d hd] at this
+
+theorem rnStep_le (n d U : Nat) (hd : 0 < d) (h : n ≤ U * d) : rnStep n d ≤ U := by
+  have := rnStep_mono n (U * d) d hd h
+  rwa [rnStep_exact U d hd] at this
